@@ -97,8 +97,8 @@ KNDS = (1, 0, 5, 20000, 30000, 65535, 4294967296, -1)
 
 @obligation(funcs=["storage.kv.LMDBStorage.add_event", "storage.kv.WriterThread.run", "storage.kv.encode_event",
                    "storage.kv.Index.write"],
-            timeout=(280, 1200), params=range(2),
-            bounds="PARAM 0: fresh event with created_at from {1, 1.7e9, 2^32-1, 2^32, 2^64, -1}, kind from {1,0,5,20000,30000,"
+            timeout=(280, 1200), params=range(3),
+            bounds="PARAM 2: the same event submitted twice BEFORE the writer thread ran; PARAM 0: fresh event with created_at from {1, 1.7e9, 2^32-1, 2^32, 2^64, -1}, kind from {1,0,5,20000,30000,"
                    "65535,2^32,-1}, <=1 tag from the 10 general shapes, by symbolic selectors (the validator stub accepts: these "
                    "values pass is_signed); PARAM 1: the same event submitted twice")
 def ob_kv_ack(tsel: int, ksel: int, g: List[int], can: bool) -> str:
@@ -121,7 +121,7 @@ def ob_kv_ack(tsel: int, ksel: int, g: List[int], can: bool) -> str:
                content="c", sig=W.SIG)
     env = W.new_env()
     store.db = env
-    rounds = 2 if PARAM == 1 else 1
+    rounds = 2 if PARAM in (1, 2) else 1
     acks = []
     for r in range(rounds):
         try:
@@ -129,7 +129,9 @@ def ob_kv_ack(tsel: int, ksel: int, g: List[int], can: bool) -> str:
             acks.append(bool(changed))
         except (StorageError, AuthenticationError):
             acks.append(None)
-        W.run_writer(env, store.queued())
+        if PARAM != 2:
+            store.run_writer(env)
+    store.run_writer(env)
     row = dict(evj)
     stored = W.ids_of(env)
     err = W.coherence_error(env)
@@ -146,7 +148,7 @@ def ob_kv_ack(tsel: int, ksel: int, g: List[int], can: bool) -> str:
             evj["created_at"], evj["kind"], evj["tags"])
     if effects.is_ephemeral(row) and stored:
         return "ephemeral event stored"
-    if PARAM == 1:
+    if PARAM in (1, 2):
         if acks[1]:
             return "resubmission of a stored event acknowledged with OK true"
         if len(broadcasts) != 1:
